@@ -68,7 +68,7 @@ func CoreCorpus(g *gen.Gen, n int) []Item {
 	for ci, cs := range g.Catalogue(1 + n/2500) {
 		items = append(items, mkItem(cs, ci))
 	}
-	if n >= 2000 {
+	if n >= 1500 {
 		for ci, cs := range g.SearchCatalogue([]string{"name", "address.city"}) {
 			items = append(items, mkItem(cs, ci))
 		}
